@@ -35,6 +35,8 @@ PROP = dict(
         workloads=[
             dict(name="authority-matrix", go_test="TestC12", runner="C12",
                  env=dict(quick=dict(VERIF_HIST=2), thorough=dict(VERIF_HIST=8))),
+            dict(name="liquidation-auction-authority", go_test="TestC12X", runner="C12X",
+                 env=dict(quick=dict(VERIF_HIST=2), thorough=dict(VERIF_HIST=12))),
         ],
         search_env=_search_env,
         rule="case = one message run through the MsgServiceRouter on its own store branch of a prepared state in which THREE accounts each hold one position of every kind "
